@@ -123,10 +123,16 @@ class SparseFile(_Trap):
     def seekable(self):
         return True
 
+    def _open_or_raise(self):
+        if self.closed:
+            raise ValueError("I/O operation on closed file")  # what a real file object does
+
     def tell(self):
+        self._open_or_raise()
         return self.pos
 
     def seek(self, pos, whence=0):
+        self._open_or_raise()
         if whence == 0:
             new = pos
         elif whence == 1:
@@ -161,6 +167,7 @@ class SparseFile(_Trap):
         return bytes(out)
 
     def read(self, n=-1):
+        self._open_or_raise()
         if n is None or n < 0:
             n = max(0, self.size - self.pos)
         want = n
